@@ -3,8 +3,8 @@
 # Runs the quick checks against a scratch worktree of /repo HEAD with the patch applied, using a private
 # copy of the harness (so /repo itself is never modified and concurrent builds are not disturbed).
 P="$(readlink -f "$1")"; shift
-WT=/tmp/mwt/repo; H=/tmp/mwt/harness; OUT=/tmp/mwt/out
-mkdir -p /tmp/mwt
+M=${MWT:-/tmp/mwt}; WT=$M/repo; H=$M/harness; OUT=$M/out
+mkdir -p $M
 if [ ! -d "$WT" ]; then git -C /repo worktree add -q --detach "$WT" HEAD || exit 2; fi
 git -C "$WT" checkout -q --detach "$(git -C /repo rev-parse HEAD)" 2>/dev/null
 git -C "$WT" checkout -q -- . && git -C "$WT" clean -qfd
@@ -13,11 +13,11 @@ rm -rf "$H"; mkdir -p "$H" "$OUT"
 rsync -a --exclude target /verif/harness/ "$H/"
 for f in ${STUBS:-}; do git -C /verif show ${STUBREV:-9a69882}:harness/vcheck/src/$f > "$H/vcheck/src/$f"; done
 sed -i "s#/repo/#$WT/#g; s#\.\./vendor#/verif/vendor#g" "$H/Cargo.toml"
-sed -i "s#/verif/target#/tmp/mwt/target#" "$H/.cargo/config.toml"
+sed -i "s#/verif/target#$M/target#" "$H/.cargo/config.toml"
 cp /verif/known_findings.json "$OUT/"
 ( cd "$H" && cargo build --release --offline -p vcheck 2>&1 | grep -E "^error" -A8 | head -20 )
 for id in "$@"; do
-  out=$(cd "$OUT" && VERIF_ROOT="$OUT" VERIF_TIER=${TIER:-quick} LD_PRELOAD=/verif/target/libdetrand.so /tmp/mwt/target/release/vcheck $id 2>&1)
+  out=$(cd "$OUT" && VERIF_ROOT="$OUT" VERIF_TIER=${TIER:-quick} LD_PRELOAD=/verif/target/libdetrand.so $M/target/release/vcheck $id 2>&1)
   code=$?
   echo "== $id exit=$code $(echo "$out" | grep -c '^VIOLATION') violation line(s)"
   echo "$out" | grep "violation class" | cut -c1-${WIDTH:-260} | head -${SHOW:-4}
